@@ -4,8 +4,8 @@
 
    Parametrised by the shape facts read from promise.py ([src_pcfg], from gen/EventualGen.v).
    Promises are numbered in creation order; a message carries an identity, the scripted behaviour
-   of the target's method (return a value / raise / return a promise) and the promise for its
-   result.  No proofs here. *)
+   of the target's method (return a value / raise / return a promise / ... / the target has no
+   such method) and the promise for its result.  No proofs here. *)
 From Coq Require Import ZArith List Bool.
 Import ListNotations.
 Require Import Verif.gen.EventualGen.
@@ -63,8 +63,14 @@ Definition d10_pcfg : pcfg := {|
 Inductive outcome := Val (v : Z) | Fail (f : Z).
 Inductive beh := BRet (v : Z) | BRaise (f : Z) | BRetP (q : nat)
   | BSendRet (q : nat) (m : Z) (v : Z)    (* the method itself does sendOnly(promise q).m(..) [message m], then returns v *)
-  | BRetD.                                (* the method returns a Deferred (one per message, identified by the message id);
+  | BRetD                                 (* the method returns a Deferred (one per message, identified by the message id);
                                              the program fires it -- before or after the delivery -- with PFire *)
+  | BNoMeth.                              (* the target has no method of that name: getattr(self._target, methname) in
+                                             _deliverOneMethod raises AttributeError inside maybeDeferred -- nothing is invoked,
+                                             the resolver of the result promise gets that Failure *)
+(* the code the harness gives a Failure whose exception is not one of its own (canon_outcome): the AttributeError *)
+Definition attr_error : Z := (-1)%Z.
+Definition invocable (b : beh) : bool := match b with BNoMeth => false | _ => true end.
 Inductive resolution := RVal (v : Z) | RFail (f : Z) | RProm (q : nat).
 (* the Deferred a method returned / will return: still waited for by the resolver of the message's result promise
    (d.addBoth(resolver) in _deliver), fired before the method returned it, or fired and consumed *)
@@ -87,6 +93,8 @@ Inductive task :=
 Inductive pev :=
 | ESent (p : nat) (m : Z)                       (* send / sendOnly accepted message m for p *)
 | EDelivered (p : nat) (m : Z) (o : outcome)    (* _deliver ran: method invoked on value / resolver given the failure *)
+| EDeliveredNM (p : nat) (m : Z) (o : outcome)  (* _deliver ran, message m was taken from the queue and handed to the value o
+                                                   of p, which has no such method: nothing invoked ([BNoMeth]) *)
 | EWhen (p : nat) (w : Z)                       (* when(p) / p._then / p._except registered observer w *)
 | EChained (p q : nat)                          (* p was resolved with the promise q (accepted: p was EVENTUAL) *)
 | EObserved (p : nat) (w : Z) (o : outcome)     (* observer w of p was told o *)
@@ -241,7 +249,12 @@ Definition meth_result (nx : nat) (s0 : ps) (m : msg) : ps * option resolution :
              | Some (DFired x) => (set_def s0 (mid m) DDone, Some x)
              | Some _ => (s0, None)
              end
+  | BNoMeth => (s0, Some (RFail attr_error))
   end.
+
+(* the report of a hand-over to a value: a method was invoked, or there was none to invoke *)
+Definition dev (p : nat) (m : msg) (o : outcome) : pev :=
+  if invocable (mbeh m) then EDelivered p (mid m) o else EDeliveredNM p (mid m) o.
 
 Definition resolver_opt (c : pcfg) (s : ps) (r : option nat) (x : option resolution) : ps * list pev :=
   match x with Some x => resolver c s r x | None => (s, []) end.
@@ -260,7 +273,7 @@ Definition run_task (c : pcfg) (s : ps) (t : task) : ps * list pev :=
               let '(s0, e0) := meth_send c s m in
               let '(s0', x) := meth_result (next s) s0 m in
               let '(s1, e) := resolver_opt c s0' (mres m) x in
-              (s1, EDelivered p (mid m) (Val v) :: e0 ++ e)
+              (s1, dev p m (Val v) :: e0 ++ e)
           end
       end
   | TCallback p (W w) o => (s, [EObserved p w o])
@@ -331,6 +344,7 @@ Fixpoint delivered_to (p : nat) (t : list pev) : list Z :=
   match t with
   | [] => []
   | EDelivered p' m _ :: t' => if Nat.eqb p' p then m :: delivered_to p t' else delivered_to p t'
+  | EDeliveredNM p' m _ :: t' => if Nat.eqb p' p then m :: delivered_to p t' else delivered_to p t'
   | _ :: t' => delivered_to p t'
   end.
 Fixpoint queued_for (p : nat) (q : list task) : list Z :=
@@ -393,6 +407,7 @@ Definition want_links (s : ps) (p : nat) : nat :=
 Definition outcome_of (p : nat) (e : pev) : option outcome :=
   match e with
   | EDelivered p' _ o => if Nat.eqb p' p then Some o else None
+  | EDeliveredNM p' _ o => if Nat.eqb p' p then Some o else None
   | EObserved p' _ o => if Nat.eqb p' p then Some o else None
   | _ => None
   end.
@@ -403,6 +418,7 @@ Definition enc_pev (e : pev) : list Z :=
   | ESent p m => [1; Z.of_nat p; m]
   | EDelivered p m (Val v) => [2; Z.of_nat p; m; v]
   | EDelivered _ _ (Fail _) => []                (* not observable: nothing is invoked *)
+  | EDeliveredNM _ _ _ => []                     (* not observable: nothing is invoked (the target has no such method) *)
   | EWhen _ _ => []                              (* bookkeeping of the model: the call itself *)
   | EChained _ _ => []
   | EObserved p w (Val v) => [3; Z.of_nat p; w; 0; v]
